@@ -34,8 +34,7 @@ REAL = ['glue.core.data.Data mutation API', 'glue.core.component_id', 'glue.core
 STUB = ['recording HubListener', 'uuid and identity-hash streams']
 ASSUMPTIONS = ['messages are compared only when no delay window is open', 'generator guard of the open finding excludes update_values_from_data with a different number of dimensions', 'sampling, not proof']
 PROBES = ['rejected_add_wrong_shape', 'rejected_reorder', 'rejected_update_wrong_shape', 'partial_update_then_reject', 'cascade_remove', 'coords_replaced',
-          'coords_removed', 'update_from_new_shape', 'update_from_label_mismatch', 'ops_in_delay_window', 'outside_collection', 'rename', 'update_id',
-          'derived_first_rejected']
+          'coords_removed', 'update_from_new_shape', 'update_from_label_mismatch', 'ops_in_delay_window', 'outside_collection', 'rename', 'update_id']
 
 WEIGHTS = {'add': 5, 'add_bad': 1.5, 'add_derived': 3, 'remove': 3, 'reorder': 2, 'reorder_bad': 1, 'rename': 2, 'update_id': 1.5, 'upd': 3, 'upd_bad': 1,
            'upd_partial': 1, 'upd_from': 2, 'coords': 2, 'label': 1, 'delay_open': 1, 'delay_close': 1.5, 'new': 0.7}
